@@ -1,5 +1,7 @@
 (* C03 - phrases follow the published layout and nothing else. *)
 From PS Require Import Base PackDefs ApiDefs SpecDefs SpecApi PackProofs PackTheorems ApiLemmas RefineProofs ApiTheorems.
+From PS Require Import CTiePack.
+From PS.Gen Require CFuns.
 From PS.Gen Require Import Consts Langs.
 Local Open Scope N_scope.
 
@@ -50,3 +52,12 @@ Example C03_vector :
   spec_phrase_nfkd (nth 0 langs (Build_lang [] [] [] false false false false [])) s 0 =
   [x72; x61; x76; x65; x6e; x20; x74; x61; x69; x6c; x20; x73; x77; x65; x61; x72; x20; x69; x6e; x66; x61; x6e; x74; x20; x67; x72; x69; x65; x66; x20; x61; x73; x73; x69; x73; x74; x20; x72; x65; x67; x75; x6c; x61; x72; x20; x6c; x61; x6d; x70; x20; x64; x75; x63; x6b; x20; x76; x61; x6c; x69; x64; x20; x73; x6f; x6d; x65; x6f; x6e; x65; x20; x6c; x69; x74; x74; x6c; x65; x20; x68; x61; x72; x73; x68; x20; x70; x75; x70; x70; x79; x20; x61; x69; x72; x70; x6f; x72; x74; x20; x6c; x61; x6e; x67; x75; x61; x67; x65].
 Proof. vm_compute. reflexivity. Qed.
+
+(* ---- the tie to the code: polyseed_data_to_poly as TRANSLATED from /repo's current gf.c on this run
+   (Gen/CFuns.v; the chunk loops unrolled by constant propagation, the three asserts decided at
+   translation time) writes the published data words into coeff[1..15] for EVERY canonical struct *)
+Theorem C03_code_tie : forall d poly, Canon d -> length poly = 16%nat ->
+  CFuns.polyseed_data_to_poly (Z.of_N (d_birthday d)) (Z.of_N (d_features d)) (map Z.of_N (d_secret d)) (map Z.of_N poly)
+  = map Z.of_N (hd 0 poly :: spec_data_words (abs_data d)).
+Proof. exact tie_data_to_poly. Qed.
+Print Assumptions C03_code_tie.
